@@ -12,6 +12,39 @@ def _fail(call, inp, observed, expected, why):
     return dict(call=call, input=inp, observed=observed, expected=expected, why=why)
 
 
+def search_c01():
+    import rsatoolbox
+    from rsatoolbox.rdm import calc_rdm
+    rs = np.random.RandomState(7)
+    for rep in range(60):
+        n_cond, p, reps = rs.randint(2, 5), rs.randint(1, 4), rs.randint(1, 3)
+        labels = np.repeat(np.arange(n_cond), reps)
+        rs.shuffle(labels)
+        X = rs.randint(1, 40, size=(len(labels), p)) / 8.0
+        ds = rsatoolbox.data.Dataset(X, obs_descriptors={'c': labels})
+        means = np.array([X[labels == c].mean(0) for c in range(n_cond)])
+        for method in ('euclidean', 'correlation', 'poisson'):
+            if method == 'correlation' and (p < 2 or np.any(means.std(1) < 1e-6)):
+                continue
+            got = calc_rdm(ds, method=method, descriptor='c').dissimilarities[0]
+            want = []
+            for i in range(n_cond):
+                for j in range(i + 1, n_cond):
+                    a, b = means[i], means[j]
+                    if method == 'euclidean':
+                        want.append(np.sum((a - b) ** 2) / p)
+                    elif method == 'correlation':
+                        want.append(1 - np.corrcoef(a, b)[0, 1])
+                    else:
+                        la, lb = (a + 0.1) / 1.1, (b + 0.1) / 1.1      # defaults prior_lambda=1, prior_weight=0.1
+                        want.append(np.sum((la - lb) * (np.log(la) - np.log(lb))) / p)
+            if not np.allclose(got, want, rtol=1e-9, atol=1e-12):
+                return _fail('calc_rdm', dict(method=method, measurements=X.tolist(), labels=labels.tolist()),
+                             [float(x) for x in got], [float(x) for x in want],
+                             f'calc_rdm(method={method!r}) is not the formula of the property on the condition means')
+    return None
+
+
 def search_c06():
     from rsatoolbox.util.inference_util import _dual_bootstrap, _correct_1d
     vals = [0.0, 0.5, 1.0, 2.0, 3.0, 5.0]
